@@ -220,7 +220,6 @@ func diffHint(got, want string) string {
 	return "first difference at offset " + sprintf("%d", i) + ": got …" + cut(got) + "… expected …" + cut(want) + "…"
 }
 
-
 // reachesItself: g is (directly or mutually) recursive — such a function is never inlined.
 func reachesItself(prog *ir.Program, g *ir.Func) bool {
 	seen := map[string]bool{}
